@@ -149,6 +149,11 @@ func buildWorld(rt *rapid.T, t *testing.T) *world {
 	_ = r.Unpack(&sfp)
 	w.sfPos, w.sfPosLk = sfp.PositionID, sfp.LockID
 	w.posOwner[w.sfPos] = A0
+	// more positions of the two owners, alternating, so that position ids reach two digits: ids are stored in decimal in
+	// the owner index (.../<pool>/<position>), and a sender who owns #10..#19 must not pass for the owner of #1
+	for i, n := 0, rapid.SampledFrom([]int{0, 6, 9, 14}).Draw(rt, "fillerPositions"); i < n; i++ {
+		mkPos([]int{A1, A0}[i%2], -100000-int64(i+1)*100, 100000+int64(i+1)*100)
+	}
 	// locks
 	mkLock := func(a int, den string, amt osmomath.Int, d time.Duration) uint64 {
 		r := must(rt, "lock", c.Exec(lockuptypes.NewMsgLockTokens(chain.Actor(a), d, sdk.NewCoins(sdk.NewCoin(den, amt)))))
